@@ -334,7 +334,7 @@ pub fn run(ctx: &mut Ctx) {
         return run_kill(ctx);
     }
     let scratch = Scratch::new();
-    for case in ctx.cases(60, 6_000) {
+    for case in ctx.cases(150, 12_000) {
         let mut rng = ctx.rng(case);
         let n = rng.range(6, 25);
         let ops = gen_history(&mut rng, n);
